@@ -65,10 +65,14 @@ def gen(rnd):
     return "\n".join(lines) + "\n", exp, pos
 
 
+LAST = {"line": None, "impl": None}      # of the latest check(): the model's command line and the implementation's table
+
+
 def check(rnd):
     """None or a description of what is wrong with the IR of one generated program"""
     import gtirb_rewriting.assembler as A
     text, exp, pos = gen(rnd)
+    LAST["line"] = LAST["impl"] = None
     target = A.Assembler.Target(gtirb.Module.ISA.X64, gtirb.Module.FileFormat.ELF, ["DYN"] if rnd.random() < 0.5 else ["EXEC"], False)
     try:
         asm = A.Assembler(target)
@@ -76,10 +80,22 @@ def check(rnd):
         res = asm.finalize()
     except Exception as e:  # noqa
         return text, f"a self-contained text of the vocabulary is refused: {type(e).__name__}: {str(e)[:100]}"
+    # the model's input: the operand-size table of every section of the RESULT (sections numbered in the result's order)
+    order = list(res.sections)
+    LAST["line"] = f"createir {len(order)} " + " ".join(
+        f"{k} {len(res.sections[n].symbolic_expression_sizes)} " + " ".join(f"{o} {z}" for o, z in sorted(res.sections[n].symbolic_expression_sizes.items()))
+        for k, n in enumerate(order))
+    LAST["impl"] = None
     try:
         ir = res.create_ir()
     except Exception as e:  # noqa
         return text, f"create_ir() raises {type(e).__name__}: {str(e)[:100]}"
+    got = []
+    for off_, v in ir.modules[0].aux_data["symbolicExpressionSizes"].data.items():
+        bi_ = off_.element_id
+        k = order.index(bi_.section.name) if isinstance(bi_, gtirb.ByteInterval) and bi_.section is not None and bi_.section.name in order else 99
+        got.append((k, off_.displacement, v))
+    LAST["impl"] = ",".join(sorted(f"{k}:{o}:{z}" for k, o, z in got))
     m = ir.modules[0]
     by_name = {s.name: s for s in m.sections}
     sizes = {}
